@@ -360,7 +360,8 @@ def substitute_diminished_for_diminished(progression, substitute_index, ignore_s
 
     # Diminished progressions
     if suff == "dim7" or suff == "dim" or suff == "" and roman in ["VII"] or ignore_suffix:
-        if suff == "":
+        if suff not in ("dim", "dim7"):
+            # (no suffix, or one that ignore_suffix told us to ignore)
             suff = "dim"
 
         # Add diminished chord
